@@ -129,6 +129,34 @@ CHECKS["C15"] = dict(
     technique="Lean 4 theorems (matcher = denotation, compress/merge laws, exactness on a fragment, proved counterexample) + correspondence + verified-matcher probing",
 )
 
+CHECKS["C05"] = dict(
+    category="proof",
+    text="An oracle model Smt.eval of the SMT-LIB 2.6 ground semantics (Ints, Strings, RegLan) for the operators ISLa's lexer accepts is "
+    "proved to meet the SMT-LIB definitions for ALL arguments: div/mod existence+uniqueness of the Euclidean pair; substr/at/indexof/replace "
+    "incl. negative / out-of-range indices and empty patterns; to_int/from_int; regex membership = denotation (via matchB_iff); totality: a "
+    "well-typed term always has a value of its type unless a divisor is zero. Tie, per generated ground atom: Z3 vs the model (validates the "
+    "model) and Z3 vs each ISLa decision point - is_valid, evaluate_smt_formula (variables as closure parameters), "
+    "SMTFormula.substitute_expressions with auto-evaluation; a different truth value or any exception is a failing input.",
+    design_ref="DESIGN.md section 7 C05",
+    note="The Python-side fast path (translation of regexes to Python `re` patterns, Python arithmetic) is NOT modelled: it is tied to Z3 "
+    "only by differential testing on generated atoms; the theorems are about the oracle. Z3 4.11.2 is trusted as the property's reference. "
+    "Known finding: str.to.int on signed numerals (deviation by design).",
+    technique="Lean 4 theorems about an SMT-LIB oracle model + three-way differential (Z3 / model / ISLa decision points)",
+)
+CHECKS["C11"] = dict(
+    category="proof",
+    text="The escape table of unparse_grammar and the two tables of instantiate_escaped_symbols are REGENERATED from the source into Lean on "
+    "every run; escaping, the single-pass un-escaping and the STRING token of bnf.g4 are modelled on code-point lists. Theorems (re-checked "
+    "against the regenerated tables): unescape(escape s) = s for EVERY string; the printed terminal is exactly one STRING token; "
+    "print-then-read of a terminal is the identity. Tie: per code point and on adversarial texts the model's escape/unescape are compared with "
+    "the real functions; generated grammars go through unparse_grammar/parse_bnf: identical grammar when no terminal contains '<', language "
+    "equivalence from every original nonterminal (verified recognizer, bounded string sets) otherwise.",
+    design_ref="DESIGN.md section 7 C11",
+    note="ANTLR lexing/parsing beyond the STRING token and the '<langle>' rewrite are validated by the round trip / language comparison, not "
+    "proved. join(split(s)) = s for RE_NONTERMINAL is trusted.",
+    technique="translator (tables regenerated from source) + Lean 4 theorems over the generated tables + round-trip correspondence",
+)
+
 NOT_APPLICABLE = {
     "C22": "reproducibility across fresh processes depends on hash randomisation, Z3 seeds/timeouts and wall-clock time; a functional Lean model would prove determinism vacuously and no executable model can exhibit the failure (DESIGN.md section 8)",
 }
